@@ -308,7 +308,14 @@ class HybridClass(metaclass=MetaHybridClass):
                 # keyed like fields_to_store, by the (possibly renamed)
                 # python-side name
                 pyname = obj._rename.get(field.name, field.name)
-                defaults[pyname] = field.get_default()
+                default = field.get_default()
+                if hasattr(field.ftype, "_itemtype") and hasattr(
+                    field.ftype._itemtype, "_dtype"
+                ):
+                    # the attribute is an nplike array: compare it with
+                    # an nplike array (any number of dimensions)
+                    default = default.to_nplike()
+                defaults[pyname] = default
             except (TypeError, ValueError):
                 # The above can fail with different error types
                 # if a field type is dynamic.
